@@ -407,6 +407,10 @@ func TestWrapperRandom(t *testing.T) {
 					case x < 45 && len(hs) > 0:
 						do(schedStep{A: "start", P: r.pick(hs), Call: "release", Outcome: r.pick(outcomes)})
 					case x < 60 && next < len(names):
+						if canCancel && (r.chance(1, 4) || (ev && cc.kind == "queue" && r.chance(1, 2))) {
+							// the caller's context is done before it calls Acquire at all
+							do(schedStep{A: "cancel", P: names[next]})
+						}
 						arrive()
 					case x < 72 && canCancel && len(ws) > 0:
 						do(schedStep{A: "cancel", P: r.pick(ws)})
